@@ -11,6 +11,11 @@ CFGS = [
     dict(name="n4_cut3", files=3, rg=2, shard_union={"table": "t0", "nodes": 4, "cut": 3, "seed": 4}, **PQ),
     dict(name="n8_cut1", files=1, rg=8, shard_union={"table": "t0", "nodes": 8, "cut": 1, "seed": 5}, **PQ),
     dict(name="n3_whole_rg", files=3, rg=1, shard_union={"table": "t0", "nodes": 3, "cut": 1000, "seed": 6}, **PQ),
+    # hive-style tables: every file has the SAME name in its own directory (explicit file list), one row group per file cut into
+    # sub-row-group ranges, so that ranges of different files continue each other under the canonical (name, row group, offset) order
+    dict(name="samename_n1_cut2", files=2, rg=1000, same_names=True, shard_union={"table": "t0", "nodes": 1, "cut": 2, "seed": 7}, **PQ),
+    dict(name="samename_n2_cut1", files=3, rg=1000, same_names=True, shard_union={"table": "t0", "nodes": 2, "cut": 1, "seed": 8}, **PQ),
+    dict(name="samename_n3_cut2", files=2, rg=2, same_names=True, shard_union={"table": "t0", "nodes": 3, "cut": 2, "seed": 9}, **PQ),
 ]
 
 
